@@ -651,6 +651,8 @@ var c20Bases = []c20Base{
 	{name: "deep", suffix: "/mirror/osm.v1/api/0.6", prefix: "/mirror/osm.v1/api/0.6"},
 	{name: "default", prefix: "/api/0.6", defHost: true},
 	{name: "slash", suffix: "/api/0.6/", prefix: "/api/0.6", slash: true},
+	// a base URL with percent-escapes (the fake server logs the raw, still escaped path)
+	{name: "escaped", suffix: "/osm%20mirror/v%2B1/api/0.6", prefix: "/osm%20mirror/v%2B1/api/0.6"},
 }
 
 var c20Vias = []string{"ds", "nilclient", "pkg"}
